@@ -342,6 +342,70 @@ example :
       routerAdmits [' '] P = false := by
   decide
 
+/-! ### non-vacuity (audit): the theorems themselves on the instances above, and the predicate falsified -/
+namespace C05Example
+
+/-- three ranges with weights, parameters and optional whitespace; two produced types; three writers -/
+def a : Str := "application/json ; level=1 ; q=0.5,\t*/* ;q= 0.8 , application/xml;q = 0.9".toList
+def P : List Str := [mimeJSON, mimeXML]
+def reg : List Str := [mimeJSON, mimeXML, "text/csv".toList]
+
+theorem hwf : Spec.wfMime P reg = true := by decide
+theorem hadm : routerAdmits a P = true := by decide
+theorem h07b : Spec.F07b a P reg = false := by decide
+
+example : (split ',' a).length = 3 ∧ (Spec.C05.ranges a).length = 3 ∧ Spec.defaultOK reg mimeJSON = true ∧
+    entityWriter a P reg mimeJSON = [mimeXML] := by
+  decide
+
+example : ∃ b, Spec.best a P reg = some b ∧ entityWriter a P reg mimeJSON = [b] :=
+  C05_best_partial a P reg mimeJSON hwf hadm h07b
+example : ∀ m ∈ entityWriter a P reg mimeJSON, m ∈ P ∧ m ∈ reg :=
+  C05_member_partial a P reg mimeJSON hwf hadm h07b
+example : ∀ m ∈ entityWriter a P reg mimeJSON, ∀ m' ∈ entityWriter a P reg mimeJSON, m = m' :=
+  C05_function_partial a P reg mimeJSON hwf hadm h07b
+example : entityWriter a P reg mimeJSON ≠ [] := C05_no406 a P reg mimeJSON hwf (by decide)
+example : entityWriter a P reg mimeJSON ≠ [] := C05_no406_admitted a P reg mimeJSON hwf (by decide) hadm
+example : entityWriter a P reg mimeZIP ≠ [] := C05_no406_partial a P reg mimeZIP hwf hadm h07b
+example : routerAdmits [] P = true ∧ Spec.best [] P reg = P.head? ∧ entityWriter [] P reg mimeXML = P.head?.toList :=
+  C05_absent_accept P reg mimeXML hwf
+
+/-- `C05_holds_partial` on three dispatches, each answered by the model's only possible writer -/
+example : Spec.c05Holds a P reg [.ct mimeXML, .ct mimeXML, .ct mimeXML] = true :=
+  C05_holds_partial a P reg mimeJSON hwf hadm h07b [.ct mimeXML, .ct mimeXML, .ct mimeXML] (by decide)
+
+/-- on the same request (outside F07b) the predicate is falsified by: a produced type with a writer
+    that is not the best one (JSON, q=0.5); a registered type that is not produced; a 406; anything
+    else; two dispatches that differ -/
+example :
+    Spec.c05Holds a P reg [.ct mimeJSON] = false ∧
+    Spec.c05Holds a P reg [.ct "text/csv".toList] = false ∧
+    Spec.c05Holds a P reg [.notAcceptable] = false ∧
+    Spec.c05Holds a P reg [.other] = false ∧
+    Spec.c05Holds a P reg [.ct mimeXML, .ct mimeJSON] = false ∧
+    Spec.c05Holds a P reg [.ct mimeXML, .ct mimeXML, .notAcceptable] = false := by
+  decide
+
+/-- two spellings of one header (see the example above) -/
+def b : Str := "application/xml;q=0.2,application/json".toList
+def b' : Str := " application/xml ;\tq = 0.2 ,  application/json\t".toList
+
+example : b ≠ b' ∧ sortedMimes b = sortedMimes b' ∧ (sortedMimes b).length = 2 :=
+  ⟨by decide, C05_ows b b' (by decide), by decide⟩
+example : entityWriter b [mimeXML, mimeJSON] [mimeJSON, mimeXML] [] = entityWriter b' [mimeXML, mimeJSON] [mimeJSON, mimeXML] [] :=
+  C05_ows_writer b b' _ _ [] (by decide) (by decide) (by decide)
+example : entityWriter b [mimeXML, mimeJSON] [mimeJSON, mimeXML] [] = entityWriter b' [mimeXML, mimeJSON] [mimeJSON, mimeXML] [] :=
+  C05_ows_writer_admitted b b' _ _ [] (by decide) (by decide) (by decide) (by decide) (by decide)
+/-- … and the common writer is JSON (q=1 beats q=0.2), not the first produced type -/
+example : entityWriter b' [mimeXML, mimeJSON] [mimeJSON, mimeXML] [] = [mimeJSON] := by decide
+
+/-- `C05_F07b_class` on the header of `C05_F07b_witness` (its hypothesis `F07b = true` is satisfiable) -/
+example : ∃ piece ∈ split ',' "application/json;q=x,application/xml".toList,
+    (mediaOf piece = starStar ∨ mediaOf piece ∈ [mimeJSON]) ∧ rangeOf piece = none :=
+  C05_F07b_class _ [mimeJSON] harnessReg (by decide) (by decide)
+
+end C05Example
+
 /-! The frame condition (Lemmas/StateShape.lean): the code has exactly the state this property's model
     accounts for — no further package-level variable, struct type or field; constants as modelled. -/
 -- also: Restful.StateShape.globals_shape
